@@ -152,6 +152,8 @@ pub struct Stats {
 }
 
 pub const MAX_SAMPLES: usize = 5;
+/// samples kept in the evidence file: two per stage, at most this many overall
+pub const MAX_REPORT_SAMPLES: usize = 24;
 /// cap for the set of non-trivial hashes kept per shard (memory guard); beyond it the count saturates
 pub const MAX_NONTRIVIAL: usize = 1_500_000;
 
@@ -471,7 +473,16 @@ impl Report {
         });
         let mut results = results.into_inner().unwrap();
         results.sort_by_key(|r| r.0);
-        for (_, st, fail, kh) in results {
+        let mut stage_samples = 0;
+        for (_, mut st, fail, kh) in results {
+            // at most two samples per stage, tagged with the stage, so that every stage is represented
+            let take: Vec<Value> = st.samples.drain(..).take(2usize.saturating_sub(stage_samples)).collect();
+            stage_samples += take.len();
+            for v in take {
+                if self.stats.samples.len() < MAX_REPORT_SAMPLES {
+                    self.stats.samples.push(json!({"stage": stage, "case": v}));
+                }
+            }
             self.stats.merge(st);
             for (k, (t, n)) in kh {
                 let e = self.known_hits.entry(k).or_insert((t, 0));
@@ -522,7 +533,15 @@ impl Report {
         });
         let mut results = results.into_inner().unwrap();
         results.sort_by_key(|r| r.0);
-        for (_, st, fails) in results {
+        let mut stage_samples = 0;
+        for (_, mut st, fails) in results {
+            let take: Vec<Value> = st.samples.drain(..).take(2usize.saturating_sub(stage_samples)).collect();
+            stage_samples += take.len();
+            for v in take {
+                if self.stats.samples.len() < MAX_REPORT_SAMPLES {
+                    self.stats.samples.push(json!({"stage": stage, "case": v}));
+                }
+            }
             self.stats.merge(st);
             for (case, f) in fails {
                 self.fail(stage, case, f);
